@@ -49,9 +49,9 @@
  * nothing is called after a failed open.
  *
  * --deep (given by ./check to the thorough tier only; implies the thorough bounds and adds to them).  Part 1:
- * request lengths 2, 48, 63, 65, 4096, 131071, 196608, 262145, 16777217 (257 generate calls: every such call crosses
- * a reseed, two from reseed_counter 257) and 33554433 (513 generate calls: two reseeds inside one call from every
- * state, three from reseed_counter 257).  Part 2: requests of 48 bytes (instantiation) and of 32 bytes (reseed), <= 7
+ * request lengths 2, 48, 63, 65, 4096, 131071, 196608, 262145, 1048577 (17 generate calls), 4194305 (65) and 16777217
+ * (257 generate calls: such a call crosses a reseed wherever it starts, and two reseeds from reseed_counter 257; the
+ * two long steps also keep the breadth-first levels few and wide).  Part 2: requests of 48 bytes (instantiation) and of 32 bytes (reseed), <= 7
  * deviations; the same depth-first enumeration, cut into one unit per (request size, answer to open, answer to the
  * first read) so that it runs on the worker pool.
  *
@@ -566,7 +566,7 @@ int
 main(int argc, char ** argv)
 {
 	static const size_t q[] = {0, 1, 31, 32, 33, 65535, 65536, 65537, 131073}, t[] = {64, 1024, 131072, 196609},
-	    dp[] = {2, 48, 63, 65, 4096, 131071, 196608, 262145, 16777217, 33554433};
+	    dp[] = {2, 48, 63, 65, 4096, 131071, 196608, 262145, 1048577, 4194305, 16777217};
 	size_t i;
 	vf_init(&argc, argv, "h_drbg");
 	for (i = 1; i < (size_t)argc; i++) if (!strcmp(argv[i], "--deep")) { deep = 1; vf_tier = 1; }	/* deep extends the thorough bounds */
@@ -578,7 +578,7 @@ main(int argc, char ** argv)
 	if (vf_replay) return do_replay(vf_replay);
 	vf_info("bounds", "generator: request lengths {0,1,31,32,33,65535,65536,65537,131073%s} x {entropy ok, entropy fails at its next call} from every (instantiated, reseed_counter) state, fixed point; "
 	    "OS entropy: 48-byte request, every answer sequence of open{ok,EACCES} read{all, each shorter length, 0, EIO, EINTR} close{0, EINTR} with <= %d deviations",
-	    deep ? ",64,1024,131072,196609,2,48,63,65,4096,131071,196608,262145,16777217,33554433" : vf_tier ? ",64,1024,131072,196609" : "", os.bound);
+	    deep ? ",64,1024,131072,196609,2,48,63,65,4096,131071,196608,262145,1048577,4194305,16777217" : vf_tier ? ",64,1024,131072,196609" : "", os.bound);
 	if (deep) vf_info("bounds_deep", "OS entropy: requests of 48 and of 32 bytes, one unit per (request size, answer to open, answer to the first read)");
 	drbg_search();
 	if (deep) {
